@@ -240,14 +240,24 @@ impl ToRange for Entry<'_> {
     }
 }
 
+/// The text range of a declared name.
+/// The identifier is the last token of its range, which might also contain comments.
+fn name_text_range(name: &Identifier, tokens: &[crate::tokens::Token]) -> Range<usize> {
+    let range = name.to_range();
+    match range.end.checked_sub(1).and_then(|last| tokens.get(last)) {
+        Some(token) if range.start < range.end => token.range.clone(),
+        _ => name.to_text_range(tokens),
+    }
+}
+
 // TODO: Remove
 impl ToTextRange for Entry<'_> {
     fn to_text_range(&self, tokens: &[crate::tokens::Token]) -> Range<usize> {
         use Entry::*;
         match self {
-            Type(t) => t.name.to_text_range(tokens),
-            Procedure(p) => p.name.to_text_range(tokens),
-            Variable(v) | Parameter(v) => v.name.to_text_range(tokens),
+            Type(t) => name_text_range(&t.name, tokens),
+            Procedure(p) => name_text_range(&p.name, tokens),
+            Variable(v) | Parameter(v) => name_text_range(&v.name, tokens),
         }
     }
 }
@@ -275,8 +285,8 @@ impl ToTextRange for GlobalEntry {
     fn to_text_range(&self, tokens: &[crate::tokens::Token]) -> Range<usize> {
         use GlobalEntry::*;
         match self {
-            Procedure(p) => p.name.to_text_range(tokens),
-            Type(t) => t.name.to_text_range(tokens),
+            Procedure(p) => name_text_range(&p.name, tokens),
+            Type(t) => name_text_range(&t.name, tokens),
         }
     }
 }
